@@ -824,3 +824,146 @@ pub mod chan {
         (Sender { q }, Queue { q })
     }
 }
+
+// ---------------------------------------------------------------------------------------
+// contiguous bounded vector that derefs to a slice (stand-in for std Vec where the code under
+// test needs `&[T]`).  Storage is a *typed* array inside the struct: CBMC propagates constants
+// through it, which it cannot do through the untyped heap block behind a std Vec (measured:
+// with std Vec a scan over two concretely known certificates does not fold and the creation
+// code of every certificate type is executed symbolically).
+// ---------------------------------------------------------------------------------------
+pub mod tvec {
+    use std::mem::MaybeUninit;
+
+    pub const TCAP: usize = 4;
+
+    pub struct Vec<T> {
+        items: [MaybeUninit<T>; TCAP],
+        len: usize,
+    }
+    impl<T> Vec<T> {
+        pub const fn new() -> Self {
+            Self { items: [const { MaybeUninit::uninit() }; TCAP], len: 0 }
+        }
+        pub fn with_capacity(_n: usize) -> Self {
+            Self::new()
+        }
+        pub fn len(&self) -> usize {
+            self.len
+        }
+        pub fn is_empty(&self) -> bool {
+            self.len == 0
+        }
+        pub fn push(&mut self, t: T) {
+            if self.len >= TCAP {
+                super::over_capacity();
+            }
+            self.items[self.len] = MaybeUninit::new(t);
+            self.len += 1;
+        }
+        pub fn as_slice(&self) -> &[T] {
+            // SAFETY: the first `len` elements are initialised
+            unsafe { std::slice::from_raw_parts(self.items.as_ptr() as *const T, self.len) }
+        }
+        pub fn as_mut_slice(&mut self) -> &mut [T] {
+            // SAFETY: the first `len` elements are initialised
+            unsafe { std::slice::from_raw_parts_mut(self.items.as_mut_ptr() as *mut T, self.len) }
+        }
+        pub fn extend(&mut self, it: impl IntoIterator<Item = T>) {
+            for x in it {
+                self.push(x);
+            }
+        }
+        pub fn from_elem(t: T, n: usize) -> Self
+        where
+            T: Clone,
+        {
+            let mut v = Self::new();
+            let mut i = 0;
+            while i < n {
+                v.push(t.clone());
+                i += 1;
+            }
+            v
+        }
+    }
+    impl<T> Default for Vec<T> {
+        fn default() -> Self {
+            Self::new()
+        }
+    }
+    impl<T> std::ops::Deref for Vec<T> {
+        type Target = [T];
+        fn deref(&self) -> &[T] {
+            self.as_slice()
+        }
+    }
+    impl<T> std::ops::DerefMut for Vec<T> {
+        fn deref_mut(&mut self) -> &mut [T] {
+            self.as_mut_slice()
+        }
+    }
+    impl<T: Clone> Clone for Vec<T> {
+        fn clone(&self) -> Self {
+            let mut v = Self::new();
+            for x in self.as_slice() {
+                v.push(x.clone());
+            }
+            v
+        }
+    }
+    impl<T> std::fmt::Debug for Vec<T> {
+        fn fmt(&self, _f: &mut std::fmt::Formatter<'_>) -> std::fmt::Result {
+            Ok(())
+        }
+    }
+    impl<T> FromIterator<T> for Vec<T> {
+        fn from_iter<I: IntoIterator<Item = T>>(it: I) -> Self {
+            let mut v = Self::new();
+            v.extend(it);
+            v
+        }
+    }
+    impl<'a, T> IntoIterator for &'a Vec<T> {
+        type Item = &'a T;
+        type IntoIter = std::slice::Iter<'a, T>;
+        fn into_iter(self) -> Self::IntoIter {
+            self.as_slice().iter()
+        }
+    }
+    pub struct IntoIter<T> {
+        v: Vec<T>,
+        i: usize,
+    }
+    impl<T> Iterator for IntoIter<T> {
+        type Item = T;
+        fn next(&mut self) -> Option<T> {
+            if self.i >= self.v.len {
+                return None;
+            }
+            // SAFETY: element i is initialised and read exactly once (the vector is forgotten)
+            let t = unsafe { self.v.items[self.i].assume_init_read() };
+            self.i += 1;
+            Some(t)
+        }
+    }
+    impl<T> IntoIterator for Vec<T> {
+        type Item = T;
+        type IntoIter = IntoIter<T>;
+        fn into_iter(self) -> IntoIter<T> {
+            IntoIter { v: self, i: 0 }
+        }
+    }
+    /// `vec![x; n]` and `vec![a, b, ..]` for the stand-in
+    macro_rules! tvec_macro {
+        ($elem:expr; $n:expr) => {
+            $crate::verif_coll::tvec::Vec::from_elem($elem, $n)
+        };
+        ($($x:expr),* $(,)?) => {{
+            let mut v = $crate::verif_coll::tvec::Vec::new();
+            $( v.push($x); )*
+            v
+        }};
+    }
+    pub(crate) use tvec_macro as vec;
+}
